@@ -200,6 +200,18 @@ let run_case line =
            let outs = x_sl_run (z_of_int (ios a0), z_of_int (ios b0)) vals (nat_of_int (ios n)) (List.map (fun x -> nat_of_int (ios x)) sched) in
            String.concat ";" (List.map (fun l -> String.concat "," (List.map (fun (a, b) -> Printf.sprintf "%d:%d" (int_of_z a) (int_of_z b)) l)) outs)
        | _ -> failwith "sl sched")
+  | "tsr" :: k :: ops ->
+      let top_of = function
+        | "clone" -> TClone | "wakeref" -> TWakeRef | "wake" -> TWakeVal | "dropw" -> TDropWaker
+        | "droptok" -> TTokenDrop | "cancel" -> TTokenCancel | "cancelfin" -> TCancelFinish
+        | "pollp" -> TPromisePoll | "dropp" -> TPromiseDrop | "start" -> TRunStart | "begin" -> TRunBegin
+        | "pending" -> TPollPending | "ready" -> TPollReady | "panic" -> TPollPanic | "rupd" -> TReadyUpdate
+        | "rfin" -> TReadyFinish | "cclose" -> TCancelClose | "dropr" -> TRunnableDrop
+        | t -> failwith ("ts op " ^ t) in
+      String.concat " " (List.map (function
+        | None -> "X"
+        | Some l -> String.concat "," (List.map (fun n -> string_of_int (int_of_nat n)) l))
+        (x_ts_trace (k = "f") (List.map top_of ops)))
   | "ts" :: k :: ops ->
       let top_of = function
         | "clone" -> TClone | "wakeref" -> TWakeRef | "wake" -> TWakeVal | "dropw" -> TDropWaker
